@@ -11,6 +11,24 @@ NOTE = ("Trusted: Lean 4.33.0 kernel (axioms audited per theorem: propext, Class
 
 # id -> dict(text, note, technique, design_ref) for every property that has a working check
 CLAIMED = {
+ "C01": dict(technique="Lean 4 proof on a hand-written model + differential correspondence + direct oracle",
+   text="Theorems (kernel-checked, axioms ⊆ {propext, Classical.choice, Quot.sound}): the lexer model's pull loop never runs out of fuel on any byte string (every non-EOF token consumes input: C01_lex_progress, C01_lexAll_fuel), token count ≤ length+1 (C01_lexAll_len); the parser model never runs out of fuel for any input, limit or number of sources, i.e. recursion depth and every loop are bounded by input length + 2 (C01_parse_fuel_query/_schema/_schemas, *_state), results are ok|error only (C01_parse_result_shape_*). The model is tied to lexer.ReadToken / parser.Parse* on every run by exhaustive enumeration (every string of ≤4 (quick) / ≤5 (thorough) symbols over 19 lexical symbols and over 16 raw bytes, block-string bodies, every sequence of ≤4/≤5 tokens over the grammar alphabets of both parsers × limits), the repository's test inputs, mutations and random bytes; the same runs apply the property's own oracle to the real code: no panic/crash/timeout, every syntax error names a line/column inside the input, non-empty message. Not a theorem (measured): fatal stack exhaustion and wall-clock — nesting families up to 64 KiB unlimited and 4 Mi repetitions under limits run in worker processes with deadlines; parse time must stay within a quadratic envelope."),
+ "C02": dict(technique="Lean 4 proof on a hand-written model + differential correspondence + crash/timeout search",
+   text="Theorems: the walker model terminates and emits at most docEvents·(#ops+#frags+1) events (C02_walk_terminates, C02_walk_events_bound); validate never runs out of fuel (C02_validate_fuel_suffices); 27 of the 30 modelled rule values never panic on any schema/document, KnownRootType never panics on parser-produced operation kinds (C02_validate_no_panic_partial, _parsed_partial); the former crash witnesses of ValuesOfCorrectType return normally since the repair (C02_validate_R2a_returns …). Tie: every run compares the real validator with the model (error lists, link dumps, observer call order) on the imported graphql-js cases, 60 000+ mutations and random rule subsets. Search on the real default rule set (incl. OverlappingFieldsCanBeMerged, not yet in the model on this branch): generated valid / faulty / blind documents over generated schemas and adversarial size families, each in a worker process with a deadline: no crash, no timeout, no multi-second validation. Partial: polynomial time is measured, not proved; the loader half of the property is covered by C07's check."),
+ "C03": dict(technique="Lean 4 proof (model vs grammar specification) + exhaustive three-way enumeration",
+   text="A specification of the October 2021 lexical grammar over code points (GqlModel/Lexer/Spec.lean, independent of the model) is compared on every run with the real lexer AND the model: every string of ≤4/≤5 symbols over 19 lexically significant symbols, every block-string body of ≤6/≤7 symbols over two 6-symbol alphabets, raw bytes, corpus, mutations, random inputs (kinds, extents in characters, semantic values, failure exactly where the grammar admits no token). Theorems: blockStringValue = BlockStringValue() of the spec on every raw value the lexer passes (C03_blockstring_eq_spec), punctuator table = spec (C03_punctuators_eq_spec), number look-ahead restriction (C03_number_lookahead, C03_lookahead_is_spec), maximal munch for names (C03_name_maximal, C03_name_class_is_spec), ignored runs (C03_ignored_only_ws). The full model≈spec equivalence for strings/comments/non-ASCII is exploration-backed only. One recorded known finding (block string closed by the last three quotes of a longer run)."),
+ "C04": dict(technique="Lean 4 proof (position invariant) + exhaustive three-way enumeration",
+   text="Theorem C04_token_pos_ascii_partial: for every ASCII source every token of lexAll carries start ≤ stop ≤ length, line = 1 + number of line terminators (LF, CR, CRLF once) before its start and column = distance from the line start + 1 as defined by the position specification (Spec.posAt) — String tokens column+1, the recorded known finding; invariant proved through ws, every scanner and the block-string loop. Sources with multi-byte characters, and tree/error positions (copied from tokens by the parser model, which is tied by C01's correspondence), are covered by the three-way enumeration (lex19 contains a 2-byte character and the BOM) and random sweeps on every run."),
+ "C10": dict(technique="Lean 4 proof (order-irrelevance) + differential correspondence + cross-process replay",
+   text="Theorems: suggestionList is invariant under permutation of its options once they are sorted, and under any permutation when there are no ties (C10_suggestions_stable, _perm_no_ties), the comparator is a total order, the model's validate depends on the schema's maps only through sorted views (C10_view_order_irrelevant) and hence returns the same result for any ordering of the types/directives/possibleTypes lists (C10_validate_deterministic); kernel-checked witness that unsorted options ARE order dependent. Tie: validator vs model incl. 'Did you mean' text (no ties tolerated since the repair). Direct: each pair validated twice on fresh parses, the same document object re-validated, and all requests replayed through 3 (quick) / 16 (thorough) independent fresh process pools with byte-for-byte comparison. One recorded known finding (re-validation of a document whose fragment spreads itself)."),
+ "C12": dict(technique="Lean 4 proof (quoting/lexer round trip, writer state) + differential correspondence + direct round trip",
+   text="Theorems: the GraphQL quoting used by Value.String is read back byte for byte by the lexer model for every sequence of Unicode scalars, at readStringLoop and at readToken level (C12_quote_roundtrip_gql, C12_quote_is_string_token), with kernel-checked counterexamples for strconv-style quoting and for ill-formed UTF-8; writer-state lemmas: two words are always separated, a word is glued to previous output only when padding is off mid-line (C12_words_separated, C12_write_boundary). Tie: formatter model = real formatter on 12 configurations per document (corpus + generated documents). Direct: parse(format(d)) ≃ d and format is a fixpoint, on the real library, all configurations. Not proved: the whole-document round trip theorem (needs the grammar completeness theorem of C05)."),
+ "C13": dict(technique="Lean 4 proof (description rendering) + differential correspondence + direct round trip",
+   text="Theorems: exact text written by WriteDescription for representable and non-representable descriptions (C13_description_text, _text_quoted), BlockStringValue of the rendered body is the description for the representable class under any blank indentation (C13_description_roundtrip), the lexer model reads it back as one BlockString token (C13_description_lexes), kernel-checked counterexamples outside the class. Tie: formatter model = real formatter for schema documents and loaded schemas on 40 configurations. Direct: document and loaded-schema round trips and fixpoint on the real library. Known findings recorded (schema description not printed, comma after described argument with WithoutDescription, WithBuiltin output not reloadable)."),
+ "C16": dict(technique="Lean 4 proof (generic over parser programs) + differential correspondence + direct limit sweep",
+   text="Theorems about the interpreter of parser programs, for both grammars: the sticky error freezes the state (C16_error_sticky), limit 0 is unlimited (C16_zero_unlimited_*), success under L gives the identical tree under 0 and under any L' ≥ L (C16_same_tree_*, C16_monotone_*), tokens pulled ≤ L+1 when the limit is exceeded (C16_pulls_bounded_*, C16_pulls_accounting_query), success under L iff success unlimited with token count ≤ L (C16_limit_exact_*_partial: the count is the parser's own counter; its identity with the lexer's token count is exploration-backed). Direct on the real parser: every document × every limit 0..n+2 (corpus, mutations, exhaustive short token sequences), and hostile multi-megabyte inputs under limits 1/16/1024 whose running time must not grow with the input."),
+ "C18": dict(technique="Lean 4 proof (composition of rule state machines) + differential correspondence + direct union law",
+   text="Theorems: for rule lists with distinct names, filtering the errors of a list by a rule's name gives exactly that rule's errors alone (C18_union), errors are tagged (C18_errors_tagged), a permuted list gives a permutation (C18_perm), the four …WithoutSuggestions rules give the same errors with the suggestion suffix removed (C18_nosuggest_*), default names are distinct. Tie: validator vs model on random subsets and orders of the rules. Direct on the real validator, per pair: default = explicit list of all 27 specified rules; every rule alone = its share of the full run (OverlappingFieldsCanBeMerged included); twins compared message by message."),
 }
 PENDING_REASON = "check not built yet in this round (work in progress per DESIGN.md §10); not claimed until its machinery runs"
 
@@ -40,7 +58,7 @@ manifest = {
         "guard": "verif",
         "enable": "go build -tags verif (the harness module replaces github.com/vektah/gqlparser/v2 by /repo)",
         "baseline_off_cmd": "cd /repo && go test -mod=mod -vet=off -count=1 ./...",
-        "source_commits": [],
+        "source_commits": ["d555f3f verif hooks: export blockStringValue, lexicalDistance, calcThreshold under build tag verif"],
         "add_only": True,
     },
     "engines": [{
